@@ -10,7 +10,7 @@ MC_CFG = """SPECIFICATION MCSpec
 CONSTANTS
   Enforce = %(enforce)s
   Deviations = %(dev)s
-  GroupNames = {"g1", "g2", "g3"}
+  GroupNames = %(groups)s
   HookNames = %(hooks)s
   MaxBody = %(maxbody)d
 INVARIANTS NoBad Emit
@@ -29,8 +29,8 @@ CHECK_DEADLOCK FALSE
 ALL = LABELS_C19 + LABELS_C10
 
 
-def model(tag, maxbody, hooks, dev="{}", emit=True):
-    p = dict(enforce=tlc.tla_set(ALL), dev=dev, hooks=hooks, maxbody=maxbody)
+def model(tag, maxbody, hooks, dev="{}", emit=True, groups='{"g1", "g2", "g3"}'):
+    p = dict(enforce=tlc.tla_set(ALL), dev=dev, hooks=hooks, maxbody=maxbody, groups=groups)
     cfg = MC_CFG % p
     if not emit:
         cfg = cfg.replace("INVARIANTS NoBad Emit", "INVARIANTS NoBad")
@@ -89,11 +89,19 @@ def run_family(tag, tier, seed, enforce):
     if big["violated"]:
         raise ToolError("Groups (bodies of two): the specification disagrees with itself: %s (%s)" % (big["violated"], big["out_path"]))
     bigc = tlc.replays(big["raw"])
+    # order inside a body only shows with two distinguishable hooks: two groups, two hooks, bodies of up to three names
+    # (a nested group first, in the middle or last, twice, next to either hook)
+    mid = model(tag + "_mc3", 3, '{"h1", "h2"}', groups='{"g1", "g2"}')
+    if mid["violated"]:
+        raise ToolError("Groups (two groups, two hooks): the specification disagrees with itself: %s (%s)" % (mid["violated"], mid["out_path"]))
+    midc = tlc.replays(mid["raw"])
     rng = random.Random(seed)
     n = 6000 if tier == "thorough" else 500
     cyc = [c for c in bigc if not c["ok"]]
     acy = [c for c in bigc if c["ok"]]
     confs += rng.sample(cyc, min(n // 2, len(cyc))) + rng.sample(acy, min(n // 2, len(acy)))
+    macy = [c for c in midc if c["ok"] and any(len(b) >= 2 for b in c["bodies"].values())]
+    confs += rng.sample(macy, min(n, len(macy))) + rng.sample([c for c in midc if not c["ok"]], min(n // 4, len(midc)))
     for c in confs:
         for g in ("g1", "g2", "g3"):
             c["bodies"].setdefault(g, [])
@@ -110,7 +118,7 @@ def run_family(tag, tier, seed, enforce):
     if tv["hard_errors"] or tv["unmatched"] is not None:
         raise ToolError("TLC failed on the groups trace: %s %s (%s)" % (tv["hard_errors"][:2], tv["unmatched"], tv["out_path"]))
     bad = [(labs, lines[ln - 1]) for ln, labs in tv["bad"]]
-    cov = {"graphs_in_model_bodies_le1": small["distinct"] - 1, "graphs_in_model_bodies_le2": big["distinct"] - 1, "graphs_loaded_by_the_daemon": len(lines),
+    cov = {"graphs_in_model_bodies_le1": small["distinct"] - 1, "graphs_in_model_bodies_le2": big["distinct"] - 1, "graphs_in_model_two_groups_two_hooks_bodies_le3": mid["distinct"] - 1, "graphs_loaded_by_the_daemon": len(lines),
            "of_which_cyclic": sum(1 for c in confs if not c["ok"]), "refused": sum(1 for e in lines if e["obs"]["kind"] == "error"),
            "loaded": sum(1 for e in lines if e["obs"]["kind"] == "loaded")}
     return bad, cov
